@@ -10,15 +10,15 @@ Section G.
   Variable children : nat -> list nat.      (* submodel_set_ of each model *)
   Hypothesis closed : forall x c, In c (children x) -> c < n.
 
-  (* path x y l: l = nodes visited after x, ending in y *)
-  Inductive path : nat -> nat -> list nat -> Prop :=
-  | p_one x y : In y (children x) -> path x y [y]
-  | p_cons x c y l : In c (children x) -> path c y l -> path x y (c :: l).
+  (* gpath x y l: l = nodes visited after x, ending in y *)
+  Inductive gpath : nat -> nat -> list nat -> Prop :=
+  | p_one x y : In y (children x) -> gpath x y [y]
+  | p_cons x c y l : In c (children x) -> gpath c y l -> gpath x y (c :: l).
 
-  Definition reaches (x y : nat) : Prop := exists l, path x y l.
-  Definition acyclic : Prop := forall x l, ~ path x x l.
+  Definition reaches (x y : nat) : Prop := exists l, gpath x y l.
+  Definition acyclic : Prop := forall x l, ~ gpath x x l.
 
-  Lemma path_nodes_lt x y l : path x y l -> Forall (fun v => v < n) l.
+  Lemma path_nodes_lt x y l : gpath x y l -> Forall (fun v => v < n) l.
   Proof. induction 1 as [x y H|x c y l H _ IH]; constructor; eauto. Qed.
 
   Lemma NoDup_lt_length (l : list nat) : NoDup l -> Forall (fun v => v < n) l -> length l <= n.
@@ -27,11 +27,11 @@ Section G.
     intros v Hv. apply in_seq. rewrite Forall_forall in Hl. specialize (Hl v Hv). lia.
   Qed.
 
-  Lemma path_app x y z l1 l2 : path x y l1 -> path y z l2 -> path x z (l1 ++ l2).
+  Lemma path_app x y z l1 l2 : gpath x y l1 -> gpath y z l2 -> gpath x z (l1 ++ l2).
   Proof. induction 1 as [x y H|x c y l H _ IH]; intros P; simpl; apply p_cons; auto. Qed.
 
-  Lemma path_split x y l v : path x y l -> In v l ->
-    v = y \/ exists l1 l2, path x v l1 /\ path v y l2 /\ l = l1 ++ l2.
+  Lemma path_split x y l v : gpath x y l -> In v l ->
+    v = y \/ exists l1 l2, gpath x v l1 /\ gpath v y l2 /\ l = l1 ++ l2.
   Proof.
     induction 1 as [x y H|x c y l H P IH]; intros Hv.
     - destruct Hv as [<-|[]]. left; reflexivity.
@@ -41,7 +41,7 @@ Section G.
         right. exists (c :: l1), l2. repeat split; auto. apply p_cons; auto.
   Qed.
 
-  Lemma acyclic_path_nodup : acyclic -> forall x y l, path x y l -> NoDup l /\ ~ In x l.
+  Lemma acyclic_path_nodup : acyclic -> forall x y l, gpath x y l -> NoDup l /\ ~ In x l.
   Proof.
     intros Hac x y l P. induction P as [x y H|x c y l H P [IHn IHx]].
     - split; [repeat constructor; simpl; tauto|]. intros [Heq|[]]. subst y. apply (Hac x [x]). constructor; auto.
@@ -58,7 +58,7 @@ Section G.
      models, so it is never deeper than n. *)
   Lemma fuel_ind_aux (P : nat -> nat -> Prop) : acyclic ->
     (forall f x, (forall c, In c (children x) -> P f c) -> P (S f) x) ->
-    forall fuel x pre, (pre = [] \/ exists r, path r x pre) -> length pre + fuel >= n + 1 -> P fuel x.
+    forall fuel x pre, (pre = [] \/ exists r, gpath r x pre) -> length pre + fuel >= n + 1 -> P fuel x.
   Proof.
     intros Hac Hstep. induction fuel as [|f IH]; intros x pre Hpre Hlen.
     - exfalso. destruct Hpre as [->|[r P0]]; [simpl in Hlen; lia|].
@@ -120,13 +120,13 @@ Section G.
   Qed.
 End G.
 
-Arguments path : clear implicits.
+Arguments gpath : clear implicits.
 Arguments reaches : clear implicits.
 Arguments acyclic : clear implicits.
 
 (* paths depend on the children lists only through membership *)
 Lemma path_incl ch ch' : (forall x y, In y (ch x) -> In y (ch' x)) ->
-  forall x y l, path ch x y l -> path ch' x y l.
+  forall x y l, gpath ch x y l -> gpath ch' x y l.
 Proof. intros H x y l P. induction P; [apply p_one|eapply p_cons]; eauto. Qed.
 
 Lemma acyclic_incl ch ch' : (forall x y, In y (ch' x) -> In y (ch x)) -> acyclic ch -> acyclic ch'.
@@ -135,7 +135,7 @@ Proof. intros H Hac x l P. apply (Hac x l). eapply path_incl; eauto. Qed.
 (* Adding the edge m -> c when c <> m and c does not reach m closes no cycle. *)
 Lemma add_edge_reach ch ch' m c :
   (forall x y, In y (ch' x) -> In y (ch x) \/ (x = m /\ y = c)) ->
-  forall x y l, path ch' x y l ->
+  forall x y l, gpath ch' x y l ->
     reaches ch x y \/ ((x = m \/ reaches ch x m) /\ (c = y \/ reaches ch c y)).
 Proof.
   intros Hch x y l P. induction P as [x y H|x z y l H P IH].
